@@ -346,6 +346,9 @@ def dec : Dec :=
     read := fun rs => match rs with
       | .ok s => (read s) >>= fun r => .ok (r.1, .ok r.2)
       | .fail => .fail
-      | .fault w => .fault w }
+      | .fault w => .fault w,
+    src := fun rs => match rs with
+      | .ok s => s.bits.src
+      | _ => { data := #[] } }
 
 end LhasaV.Lh1
